@@ -135,3 +135,15 @@ Proof. intros H. unfold Bytes in *. rewrite <- (firstn_skipn n l) in H. apply Fo
 
 Lemma be_bytes_Bytes' n v : Bytes (be_bytes n v).
 Proof. apply be_bytes_Bytes. Qed.
+
+(* ---------- the range test of Child / NewMaster with the comparison literals of the source (0 and 0) ---------- *)
+Lemma out_of_range_lit_00 v : out_of_range_lit 0 0 v = out_of_range v.
+Proof.
+  unfold out_of_range_lit, out_of_range, cmp_n, sign_n.
+  destruct (N.compare_spec v secp_nN) as [E|L|G], (N.leb_spec secp_nN v) as [H1|H1], (N.eqb_spec v 0) as [H2|H2];
+    try reflexivity; try (exfalso; lia).
+Qed.
+Lemma child_oor_eq v : child_out_of_range v = out_of_range v.
+Proof. exact (out_of_range_lit_00 v). Qed.
+Lemma master_oor_eq v : master_out_of_range v = out_of_range v.
+Proof. exact (out_of_range_lit_00 v). Qed.
